@@ -34,7 +34,7 @@ def run(ck):
         loads = [(tuple(c["target"]), c["kind"], sc.unhex(c["stream_hex"])) for c in (rp.get("cases") or [rp])]
     else:
         # 1. valid serialisations from the real library
-        objs = sc.gen_objects(ck, 5 if ck.thorough else 3)
+        objs = sc.gen_objects(ck, 4 if ck.thorough else 3)
         objs = [o for o in objs if o[3] > 0 or o[0] in ("H", "MAT")] + [("MEP", 0, 5, 0), ("POPGA", 0, 6, 0)]
         hout, crashes = pc.run_harness_resilient(harness, ["GEN %s %d %d %d" % o for o in objs])
         loads = []
@@ -51,7 +51,7 @@ def run(ck):
                 loads.append((tgt, kind, d))
 
     hl = ["LOAD %s %d %d %d %s" % (t + (sc.hexs(d),)) for t, kind, d in loads]
-    hout, crashes = pc.run_harness_resilient(harness, hl)
+    hout, crashes = sc.run_harness_chunks(harness, hl)
 
     mlines, owner = [], []
     for i, (t, kind, d) in enumerate(loads):
@@ -62,7 +62,7 @@ def run(ck):
         owner.append(i)
     mout = dict(zip(owner, sc.run_model(model, sset, mlines)))
 
-    hist, nfail = {}, 0
+    hist, nfail, nalloc = {}, 0, 0
     for i, (t, kind, d) in enumerate(loads):
         ck.count()
         ty = t[0]
@@ -70,6 +70,15 @@ def run(ck):
         ho = hout[i]
         replay = {"target": list(t), "kind": kind, "stream_hex": sc.hexs(d), "stream": d.decode("latin1")[:3000],
                   "harness_line": hl[i][:200], "impl": (ho or "")[:1500]}
+        if ho is not None and ho.startswith("CRASH"):
+            rep = crashes.get(i, "")
+            if ("allocator is out of memory" in rep or "allocation-size-too-big" in rep
+                    or "requested allocation size" in rep):
+                # the capacity to reserve for a layer (`allowed`) legitimately comes from the stream; under
+                # ASan operator new aborts instead of throwing std::bad_alloc (which population::load turns
+                # into `false`).  Memory allocation is not modelled: not judged.
+                nalloc += 1
+                continue
         if ho is None or ho.startswith("CRASH") or ho.startswith("EXC"):
             replay["sanitizer"] = crashes.get(i, "")[-2500:]
             ck.add_violation("%s:load-crash" % ty,
@@ -106,6 +115,10 @@ def run(ck):
                         "model and implementation disagree on load of a damaged stream")
     ck.coverage["per_type"] = hist
     ck.coverage["failed_loads"] = nfail
+    ck.coverage["allocation_aborts_not_judged"] = nalloc
+    if nalloc:
+        ck.notes.append("%d damaged streams made population::load reserve an absurd capacity; ASan aborts in operator new "
+                        "(a production build throws std::bad_alloc, which load() turns into false): not judged" % nalloc)
     return ck.finish(
         rule="for each valid serialisation (15 types, objects built by operator histories on the real library): "
              + ("every byte prefix" if ck.thorough else "prefixes at every token boundary +-1 (sampled to 70 for long streams)")
